@@ -89,12 +89,16 @@ static inline void vvec_emplace_back_lim(vvec *v) { __CPROVER_assume(v->size < V
 #else
 static inline void vvec_emplace_back_lim(vvec *v) { v->size = v->size + 1; }
 #endif
+/* ghost: grammar frames entered since the last Depth_Counter; a function without its own Depth_Counter may only be entered
+ * while fewer than VERIF_UMAX such frames are open, so every cycle of the call graph must pass a Depth_Counter and the native
+ * recursion is bounded by (VERIF_UMAX + 1) * (max_depth + 1) frames */
+#define VERIF_UMAX 8
 #define GREQ (PREQ && self->m_current_parse_depth <= max_depth && self->m_match_stack.size <= VVEC_MAX)
 #define GDEPTH (self->m_current_parse_depth == __CPROVER_old(self->m_current_parse_depth))
 #define GSIZE0 (__CPROVER_old(self->m_match_stack.size))
 #define GSIZE (self->m_match_stack.size)
 #define POFF_LE ((size_t)__CPROVER_POINTER_OFFSET(__CPROVER_loop_entry(self->m_position.m_pos)))
-#define GINV(e) (PVALIDI && POFF >= (e) && self->m_current_parse_depth == __CPROVER_loop_entry(self->m_current_parse_depth) && GSIZE <= VVEC_MAX)
+#define GINV(e) (PVALIDI && POFF >= (e) && self->m_current_parse_depth == __CPROVER_loop_entry(self->m_current_parse_depth) && self->verif_unguarded == __CPROVER_loop_entry(self->verif_unguarded) && GSIZE <= VVEC_MAX)
 /* answers read from nodes on the match stack: arbitrary, but the stack must hold the node that is asked */
 static inline bool verif_back_children_nonempty(const Parser *self) { VERIF_STD_PRE(self->m_match_stack.size > 0, "vector::back on an empty vector"); return verif_nondet_bool(); }
 static inline int verif_back_child0_kind(const Parser *self) { VERIF_STD_PRE(self->m_match_stack.size > 0, "vector::back on an empty vector"); int verif_k; return verif_k; }
@@ -280,7 +284,7 @@ def _base(prop):
     c2 = load_contracts("K2_lexers.contracts")
     pk.emit_position(hdr, kb, c1, prop)
     kb.add("static inline char Position_peek(Position p) { return *Position_deref(&p); }")
-    kb.add("#include \"verif_stl.h\"\ntypedef struct Parser { Position m_position; size_t m_current_parse_depth; vvec m_match_stack; } Parser;")
+    kb.add("#include \"verif_stl.h\"\ntypedef struct Parser { Position m_position; size_t m_current_parse_depth; vvec m_match_stack; size_t verif_unguarded; /* ghost */ } Parser;")
     kb.add(HEADER_EXTRA)
     kb.add("static inline ptrdiff_t vvec_distance_from(const vvec *v, int n) { VERIF_STD_PRE(n >= 0 && (size_t)n <= v->size, "
            "\"iterator begin() + n inside [begin(), end()]\"); return (ptrdiff_t)v->size - (ptrdiff_t)n; }")
@@ -314,12 +318,16 @@ def build(prop, tier="quick"):
 
     def clauses(name):
         c = C("Parser_" + name)
-        return schema + c.fn, c.loops, c.ghost
+        extra = unguarded_req if (name in guarded_fn and not guarded_fn[name]) else []
+        return schema + extra + c.fn, c.loops, c.ghost
 
     def sig(name, params):
         return "bool Parser_%s(Parser *self%s)" % (name, ", " + params if params else "")
 
     thr = throw_rule(pk.KINDMAP, HDR)
+    # a function is depth-guarded when its first statement is `Depth_Counter dc{this};` (read from the source on every run)
+    guarded_fn = {g[0]: bool(re.match(r"\s*Depth_Counter dc\{this\};", hdr.slice_function(g[1]).body)) for g in GRAMMAR}
+    unguarded_req = C("SCHEMA_unguarded").fn
     universe = {"Parser_" + n for n in NAMES} | set(pk.REPLACED) | {"verif_build_match", "verif_method_call_fixup"}
     units = []
     for name, anchor, params, dc in GRAMMAR:
@@ -342,6 +350,7 @@ def build(prop, tier="quick"):
         tabs = []
         sl = hdr.slice_function(anchor)
         fn, loops, ghost = clauses(name)
+        ghost = ["const size_t verif_u0 = self->verif_unguarded;"] + list(ghost)
 
         def pre(body, name=name, cname=cname, dc=dc, tabs=tabs, lits=lits):
             if name == "Dot_Fun_Array":
@@ -351,10 +360,20 @@ def build(prop, tier="quick"):
             if "for (const auto &" in b:
                 b, t, n = range_for(b, lits)
                 tabs.extend(t)
-            if dc:
-                b = pk.raii_depth_counter("bool")(b)
-            elif "Depth_Counter" in b:
-                raise ExtractionBreak("%s: unexpected Depth_Counter" % cname)
+            guarded = bool(re.match(r"\s*Depth_Counter dc\{this\};", b))
+            if not guarded and "Depth_Counter" in b:
+                raise ExtractionBreak("%s: Depth_Counter is not the first statement" % cname)
+            if guarded != guarded_fn[name]:
+                raise ExtractionBreak("%s: Depth_Counter detection disagrees" % cname)
+            if guarded:
+                b, n = re.subn(r"\bDepth_Counter dc\{this\};", "Depth_Counter dc; Depth_Counter_ctor(&dc, self); VERIF_GHOST(self->verif_unguarded = 0;)", b)
+            else:
+                b = "VERIF_GHOST(self->verif_unguarded = verif_u0 + 1;)" + b
+            # R9.raii: the destructor (and the ghost restore) run before every return (A2)
+            b, n = re.subn(r"\breturn\s+([^;]+);", r"{ bool verif_r = (\1); %sVERIF_GHOST(self->verif_unguarded = verif_u0;) return verif_r; }"
+                           % ("Depth_Counter_dtor(&dc); " if guarded else ""), b)
+            if n < 1:
+                raise ExtractionBreak("%s: no return statement" % cname)
             return b
 
         part_index = len(kb.parts)
@@ -375,7 +394,7 @@ def build(prop, tier="quick"):
         text = kb.text()
         body = _body_of(text, cname)
         callees = sorted(u for u in universe if u != cname and re.search(r"\b%s\(" % re.escape(u), body))
-        t = Target(cname, "h_" + cname, replace=callees, objbits=10)
+        t = Target(cname, "h_" + cname, replace=callees, objbits=10, solver="sat:cadical")
         t.rec = bool(re.search(r"\b%s\(" % cname, body))
         t.expect_loops = kb.nloops.get(cname, 0) > 0
         kb.targets.append(t)
